@@ -10,6 +10,8 @@ import Mathlib.Tactic.Ring
 import Mathlib.Tactic.LinearCombination
 import Mathlib.Tactic.FieldSimp
 import OdlModel.Model.ElemOps
+import OdlModel.Lemmas.CRat
+import OdlModel.Gen.LincombFront
 
 namespace OdlModel.C01
 open OdlModel.Lincomb OdlModel.Gen.Lincomb
@@ -21,8 +23,10 @@ def Spec {K : Type} [CommRing K] (A : Args) (a b : K) (m m' : Mem K) : Prop :=
 
 /-- What the element layer assumes about a space's `_lincomb`: it satisfies `Spec` for
 every aliasing pattern. For tensor spaces this is `C01.lincomb_correct` (see
-`C01.tensor_lincomb_spec`); product spaces inherit it component-wise
-(`C01.plincomb_correct`). -/
+`C01.tensor_lincomb_spec`), so the element-layer theorems below are closed for tensor (and
+discretized, which delegate) spaces. For product spaces the component-wise `_lincomb` is
+treated separately (`C01.plincomb_correct`, over lists of part buffers); the element layer
+is NOT instantiated for them by a theorem — there it is tied by correspondence only. -/
 def LCSpec {K : Type} [CommRing K] (lc : OdlModel.ElemOps.LC K) : Prop :=
   ∀ A a b m, ∃ m', lc A a b m = some m' ∧ Spec A a b m m'
 
@@ -30,63 +34,130 @@ end OdlModel.C01
 
 open OdlModel.Lincomb OdlModel.Gen.Lincomb OdlModel.C01 OdlModel.ElemOps
 
-/-- The extracted dispatch program is correct for either axpy form (guarded or BLAS),
-all alias patterns, all scalars, all contents; recursion depth 3 suffices. -/
-theorem C01.dispatch_correct {K : Type} [CommRing K] [DecidableEq K]
-    (g : Bool) (A : Args) (a b : K) (m : Mem K) :
-    ∃ m', run g prog 3 A a b m = some m' ∧ Spec A a b m m' := by
-  obtain ⟨x1, x2, out⟩ := A
-  simp only [run, prog, exec, Cond.eval, Coef.val, Src.buf, Spec]
-  by_cases h12 : x1 = x2 <;> by_cases ho1 : out = x1 <;> by_cases ho2 : out = x2 <;>
-  simp [h12, ho1, ho2] <;>
-  split_ifs <;> simp_all [Mem.write, scalPrim, axpyPrim] <;> grind
+/-! ## `_blas_is_applicable` (extracted) guarantees that BLAS writes reach `out` -/
 
-/-- Main theorem: for every commutative ring (ℤ, ℚ, ℝ, ℂ, …), every size and BLAS
-applicability (hence every regime selected by the extracted thresholds), every
-identity-aliasing pattern of `(x1, x2, out)` (arbitrary buffer ids), all scalars and all
-buffer contents, `_lincomb_impl` terminates and establishes the specification:
-`out = a*x1 + b*x2` entry-wise from the pre-state, nothing else modified. -/
-theorem C01.lincomb_correct {K : Type} [CommRing K] [DecidableEq K]
-    (size : Nat) (blasOk : Bool) (A : Args) (a b : K) (m : Mem K) :
-    ∃ m', lincombImpl thrSmall thrMedium fbGuard zeroGuard prog size blasOk A a b m = some m' ∧
-      Spec A a b m m' := by
-  unfold lincombImpl
-  split_ifs with hz
-  · simp only [Bool.and_eq_true, decide_eq_true_eq] at hz
+/-- The extracted predicate implies what its docstring promises: equal BLAS dtypes, sizes
+within int32, and all three arrays contiguous in one common order. -/
+theorem C01.blas_applicable_sound (d : Desc) (h : blasTree.eval d = true) :
+    d.dtypesDiffer = false ∧ d.dtypeNotBlas = false ∧ d.tooBig = false ∧
+      (d.allF = true ∨ d.allC = true) := by
+  simp only [blasTree, BTree.eval, BCond.eval] at h
+  cases h1 : d.dtypesDiffer <;> cases h2 : d.dtypeNotBlas <;> cases h3 : d.tooBig <;>
+    cases h4 : d.allF <;> cases h5 : d.allC <;> simp_all
+
+/-- Whenever the BLAS regime is entered, `out.data.ravel(ravel_order)` is a view of
+`out.data` (so the in-place BLAS routines write into `out`), whatever the layouts of the
+operands: this is the reason for the contiguity clause of `_blas_is_applicable`. -/
+theorem C01.blas_writes_through (d : Desc) (h : blasTree.eval d = true) :
+    outRavelIsView d = true := by
+  obtain ⟨_, _, _, hc⟩ := C01.blas_applicable_sound d h
+  unfold outRavelIsView
+  rcases hc with hf | hc
+  · simp only [Desc.allF, Bool.and_eq_true] at hf; simp [hf.2]
+  · simp only [Desc.allC, Bool.and_eq_true] at hc
+    cases hlf : d.lo.fContig <;> simp [hc.2]
+
+/-- The contiguity clause is needed: a descriptor that passes every other test but has a
+strided `out` would lose the result (sensitivity; non-vacuity of the layout model). -/
+example : ∃ d : Desc, d.dtypesDiffer = false ∧ d.dtypeNotBlas = false ∧ d.tooBig = false ∧
+    outRavelIsView d = false ∧ blasTree.eval d = false :=
+  ⟨⟨⟨true, true⟩, ⟨true, true⟩, ⟨false, false⟩, false, false, false⟩, by decide⟩
+
+/-! ## The dispatch program and the whole function -/
+
+/-- The extracted dispatch program is correct for either axpy form (guarded or BLAS), all
+alias patterns, all scalars, all contents, provided the recursive call — which the program
+makes only when `x1 is x2` and `b ≠ 0`, and then with second scalar `0` — is correct. -/
+theorem C01.dispatch_correct {K : Type} [CommRing K] [DecidableEq K]
+    (g : Bool) (self : Args → K → K → Mem K → Option (Mem K))
+    (A : Args) (a b : K) (m : Mem K)
+    (hself : A.x1 = A.x2 → b ≠ 0 →
+      ∃ m', self { A with x2 := A.x1 } (a + b) 0 m = some m' ∧
+        Spec { A with x2 := A.x1 } (a + b) 0 m m') :
+    ∃ m', exec g self prog A a b m = some m' ∧ Spec A a b m m' := by
+  obtain ⟨x1, x2, out⟩ := A
+  by_cases hrec : x1 = x2 ∧ b ≠ 0
+  · obtain ⟨h12, hb⟩ := hrec
+    subst h12
+    obtain ⟨m', e, s1, s2⟩ := hself rfl hb
+    refine ⟨m', ?_, ?_, s2⟩
+    · simp only [prog, exec, Cond.eval]; simp [hb, e]
+    · intro i; rw [s1 i]; simp only []; ring
+  · simp only [prog, exec, Cond.eval, Coef.val, Src.buf, Spec]
+    by_cases h12 : x1 = x2 <;> by_cases ho1 : out = x1 <;> by_cases ho2 : out = x2 <;>
+    simp [h12, ho1, ho2] <;>
+    split_ifs <;> simp_all [Mem.write, scalPrim, axpyPrim] <;> grind
+
+theorem C01.regime_blas (s : Nat) (bo : Bool)
+    (h : regime thrSmall thrMedium s bo = .blas) : bo = true := by
+  unfold regime at h
+  split_ifs at h with h1 h2
+  cases bo <;> simp_all
+
+/-- One level of `_lincomb_impl` is correct if (when `b ≠ 0`, the only case that recurses)
+the level below is correct for second scalar `0`. -/
+theorem C01.implF_step {K : Type} [CommRing K] [DecidableEq K]
+    (size : Nat) (d : Desc) (f : Nat) (A : Args) (a b : K) (m : Mem K)
+    (hrec : b ≠ 0 → ∀ A (a : K) m,
+      ∃ m', lincombImplF params size d f A a 0 m = some m' ∧ Spec A a 0 m m') :
+    ∃ m', lincombImplF params size d (f + 1) A a b m = some m' ∧ Spec A a b m m' := by
+  simp only [lincombImplF]
+  by_cases hz : (params.zeroGuard && decide (a = 0) && decide (b = 0)) = true
+  · rw [if_pos hz]
+    simp only [Bool.and_eq_true, decide_eq_true_eq] at hz
     refine ⟨_, rfl, ?_, ?_⟩
     · intro i; simp [Mem.write, hz.1.2, hz.2]
     · intro buf h; simp [Mem.write, h]
-  · cases regime thrSmall thrMedium size blasOk
+  · rw [if_neg hz]
+    cases hreg : regime params.thrSmall params.thrMedium size (params.blasTree.eval d)
     · refine ⟨_, rfl, ?_, ?_⟩
       · intro i; simp [direct, Mem.write]
       · intro buf h; simp [direct, Mem.write, h]
-    · exact C01.dispatch_correct _ A a b m
-    · exact C01.dispatch_correct _ A a b m
+    · exact C01.dispatch_correct _ _ A a b m (fun _ hb => hrec hb _ _ m)
+    · have hb : blasTree.eval d = true := C01.regime_blas size _ hreg
+      obtain ⟨m', e, hs⟩ := C01.dispatch_correct false (lincombImplF params size d f) A a b m
+        (fun _ hb => hrec hb _ _ m)
+      refine ⟨m', ?_, hs⟩
+      simp only [params] at e ⊢
+      rw [e]; simp [C01.blas_writes_through d hb]
+
+/-- Main theorem: for every commutative ring (ℤ, ℚ, ℝ, ℂ, …), every size and every array
+descriptor (dtypes, contiguity flags: hence every regime selected by the extracted
+thresholds and the extracted `_blas_is_applicable`), every identity-aliasing pattern of
+`(x1, x2, out)` (arbitrary buffer ids), all scalars and all buffer contents,
+`_lincomb_impl` — including its recursive re-entry and the zero guard — terminates and
+establishes the specification: `out = a*x1 + b*x2` entry-wise from the pre-state, nothing
+else modified. -/
+theorem C01.lincomb_correct {K : Type} [CommRing K] [DecidableEq K]
+    (size : Nat) (d : Desc) (A : Args) (a b : K) (m : Mem K) :
+    ∃ m', lincombImpl params size d A a b m = some m' ∧ Spec A a b m m' := by
+  unfold lincombImpl
+  exact C01.implF_step size d 2 A a b m
+    (fun _ A a m => C01.implF_step size d 1 A a 0 m (fun h => absurd rfl h))
 
 /-- Operands that are not the output are never modified. -/
 theorem C01.lincomb_frame {K : Type} [CommRing K] [DecidableEq K]
-    (size : Nat) (blasOk : Bool) (A : Args) (a b : K) (m m' : Mem K)
-    (h : lincombImpl thrSmall thrMedium fbGuard zeroGuard prog size blasOk A a b m = some m') :
+    (size : Nat) (d : Desc) (A : Args) (a b : K) (m m' : Mem K)
+    (h : lincombImpl params size d A a b m = some m') :
     (A.x1 ≠ A.out → m' A.x1 = m A.x1) ∧ (A.x2 ≠ A.out → m' A.x2 = m A.x2) := by
-  obtain ⟨m'', h1, _, h3⟩ := C01.lincomb_correct size blasOk A a b m
+  obtain ⟨m'', h1, _, h3⟩ := C01.lincomb_correct size d A a b m
   rw [h] at h1; cases h1
   exact ⟨fun h => h3 _ h, fun h => h3 _ h⟩
 
 /-- The previous contents of a non-aliased output never influence the result: two
 pre-states that agree on the operand buffers give the same output. -/
 theorem C01.lincomb_out_independent {K : Type} [CommRing K] [DecidableEq K]
-    (size : Nat) (blasOk : Bool) (A : Args) (a b : K) (m₁ m₂ m₁' m₂' : Mem K)
+    (size : Nat) (d : Desc) (A : Args) (a b : K) (m₁ m₂ m₁' m₂' : Mem K)
     (hx1 : m₁ A.x1 = m₂ A.x1) (hx2 : m₁ A.x2 = m₂ A.x2)
-    (h₁ : lincombImpl thrSmall thrMedium fbGuard zeroGuard prog size blasOk A a b m₁ = some m₁')
-    (h₂ : lincombImpl thrSmall thrMedium fbGuard zeroGuard prog size blasOk A a b m₂ = some m₂') :
+    (h₁ : lincombImpl params size d A a b m₁ = some m₁')
+    (h₂ : lincombImpl params size d A a b m₂ = some m₂') :
     m₁' A.out = m₂' A.out := by
-  obtain ⟨n₁, e₁, s₁, _⟩ := C01.lincomb_correct size blasOk A a b m₁
-  obtain ⟨n₂, e₂, s₂, _⟩ := C01.lincomb_correct size blasOk A a b m₂
+  obtain ⟨n₁, e₁, s₁, _⟩ := C01.lincomb_correct size d A a b m₁
+  obtain ⟨n₂, e₂, s₂, _⟩ := C01.lincomb_correct size d A a b m₂
   rw [h₁] at e₁; rw [h₂] at e₂; cases e₁; cases e₂
   funext i; rw [s₁ i, s₂ i, hx1, hx2]
 
-/-- The regime function covers the three cases at the extracted thresholds
-(non-vacuity: each regime is reachable). -/
+/-- Every regime is reachable at the extracted thresholds (non-vacuity). -/
 theorem C01.regimes_reachable :
     regime thrSmall thrMedium (thrSmall - 1) true = .small ∧
     regime thrSmall thrMedium thrSmall true = .fallback ∧
@@ -95,20 +166,22 @@ theorem C01.regimes_reachable :
   decide
 
 /-- Non-vacuity: a concrete fully aliased integer state in the fallback regime. -/
-example : ∃ m', lincombImpl thrSmall thrMedium fbGuard zeroGuard prog 100 false ⟨0, 0, 0⟩ (2 : Int) (-2)
-    (fun _ i => (i : Int)) = some m' ∧ m' 0 5 = 0 := by
-  obtain ⟨m', h, s, _⟩ := C01.lincomb_correct (K := Int) 100 false ⟨0, 0, 0⟩ 2 (-2) (fun _ i => (i : Int))
+example : ∃ m', lincombImpl params 100 ⟨⟨true, true⟩, ⟨true, true⟩, ⟨true, true⟩, false, true, false⟩
+    ⟨0, 0, 0⟩ (2 : Int) (-2) (fun _ i => (i : Int)) = some m' ∧ m' 0 5 = 0 := by
+  obtain ⟨m', h, s, _⟩ := C01.lincomb_correct (K := Int) 100
+    ⟨⟨true, true⟩, ⟨true, true⟩, ⟨true, true⟩, false, true, false⟩ ⟨0, 0, 0⟩ 2 (-2)
+    (fun _ i => (i : Int))
   exact ⟨m', h, by rw [s]; simp⟩
 
 /-! ## Element-level arithmetic (`odl/set/space.py`) on top of a correct `_lincomb` -/
 
 /-- The tensor-space `_lincomb` (extracted program, any size/regime) satisfies `LCSpec`. -/
-theorem C01.tensor_lincomb_spec {K : Type} [CommRing K] [DecidableEq K] (size : Nat) (blasOk : Bool) :
-    LCSpec (K := K) (fun A a b m => lincombImpl thrSmall thrMedium fbGuard zeroGuard prog size blasOk A a b m) :=
-  fun A a b m => C01.lincomb_correct size blasOk A a b m
+theorem C01.tensor_lincomb_spec {K : Type} [CommRing K] [DecidableEq K] (size : Nat) (d : Desc) :
+    LCSpec (K := K) (fun A a b m => lincombImpl params size d A a b m) :=
+  fun A a b m => C01.lincomb_correct size d A a b m
 
 section
-variable {K : Type} [Field K]
+variable {K : Type} [Field K] [DecidableEq K]
 
 /-- `space.lincomb(a, x, out=out)` (the `b is None` form) yields `a*x`. -/
 theorem C01.lincomb1_ok (lc : LC K) (h : LCSpec lc) (a : K) (x out : Nat) (m : Mem K) :
@@ -117,8 +190,24 @@ theorem C01.lincomb1_ok (lc : LC K) (h : LCSpec lc) (a : K) (x out : Nat) (m : M
   obtain ⟨m', e, s1, s2⟩ := h ⟨x, x, out⟩ a 0 m
   exact ⟨m', e, fun i => by rw [s1 i]; simp, s2⟩
 
+/-- Where exact arithmetic defines the quotient: a scalar divisor is non-zero (Python raises
+`ZeroDivisionError` otherwise, see `C01.div_by_zero_scalar_raises`), an element divisor has no
+zero entry (NumPy would produce inf/nan, outside exact arithmetic). -/
+def DivOK (op : Op) (c : K) (u v : Vec K) : Prop :=
+  match op with
+  | .divS | .idivS => c ≠ 0
+  | .divE | .idivE => ∀ i, v i ≠ 0
+  | .rdivS | .rdivE => ∀ i, u i ≠ 0
+  | _ => True
+
+/-- Every `LinearSpaceElement` operator (modelled from the selected branch on, with the
+temporaries the code allocates), over any space whose `_lincomb` meets its specification:
+the call succeeds, returns the documented object (`self` for in-place forms, a fresh
+element otherwise), that object holds the entry-wise formula `Op.spec` computed from the
+PRE-state — also when `other is self` (`y = x`) — and no other existing buffer is
+modified. Division is claimed only where `DivOK` holds. -/
 theorem C01.elem_op_correct (lc : LC K) (h : LCSpec lc) (op : Op) (x y t : Nat) (c : K) (m : Mem K)
-    (hx : t ≠ x) (hy : t ≠ y) :
+    (hx : t ≠ x) (hy : t ≠ y) (hdiv : DivOK op c (m x) (m y)) :
     ∃ m' r, op.exec lc x y t c m = some (m', r) ∧ r = (if op.inPlace then x else t) ∧
       (∀ i, m' r i = op.spec c (m x i) (m y i)) ∧
       (∀ buf, buf ≠ r → buf ≠ t → m' buf = m buf) := by
@@ -161,8 +250,9 @@ theorem C01.elem_op_correct (lc : LC K) (h : LCSpec lc) (op : Op) (x y t : Nat) 
     obtain ⟨m', e, s1, f1⟩ := C01.lincomb1_ok lc h c x t m
     exact ⟨m', t, by simp [Op.exec, e], by simp [Op.inPlace], by simpa [Op.spec] using s1, fun b hb _ => f1 b hb⟩
   case divS =>
+    have hc : c ≠ 0 := hdiv
     obtain ⟨m', e, s1, f1⟩ := C01.lincomb1_ok lc h (1 / c) x t m
-    exact ⟨m', t, by simp only [Op.exec, e, Option.map_some], by simp [Op.inPlace], by simpa [Op.spec] using s1, fun b hb _ => f1 b hb⟩
+    exact ⟨m', t, by simp only [Op.exec, if_neg hc, e, Option.map_some], by simp [Op.inPlace], by simpa [Op.spec] using s1, fun b hb _ => f1 b hb⟩
   case rdivS =>
     obtain ⟨m1, e1, s1, f1⟩ := C01.lincomb1_ok lc h c t t (one t m)
     refine ⟨divide t x t m1, t, by simp [Op.exec, e1], by simp [Op.inPlace], ?_, ?_⟩
@@ -192,8 +282,9 @@ theorem C01.elem_op_correct (lc : LC K) (h : LCSpec lc) (op : Op) (x y t : Nat) 
     obtain ⟨m', e, s1, f1⟩ := C01.lincomb1_ok lc h c x x m
     exact ⟨m', x, by simp [Op.exec, e], by simp [Op.inPlace], by simpa [Op.spec] using s1, fun b hb _ => f1 b hb⟩
   case idivS =>
+    have hc : c ≠ 0 := hdiv
     obtain ⟨m', e, s1, f1⟩ := C01.lincomb1_ok lc h (1 / c) x x m
-    exact ⟨m', x, by simp only [Op.exec, e, Option.map_some], by simp [Op.inPlace], by simpa [Op.spec] using s1, fun b hb _ => f1 b hb⟩
+    exact ⟨m', x, by simp only [Op.exec, if_neg hc, e, Option.map_some], by simp [Op.inPlace], by simpa [Op.spec] using s1, fun b hb _ => f1 b hb⟩
   case neg =>
     obtain ⟨m', e, s1, f1⟩ := C01.lincomb1_ok lc h (-1) x t m
     exact ⟨m', t, by simp [Op.exec, e], by simp [Op.inPlace], by simpa [Op.spec] using s1, fun b hb _ => f1 b hb⟩
@@ -207,6 +298,13 @@ theorem C01.elem_op_correct (lc : LC K) (h : LCSpec lc) (op : Op) (x y t : Nat) 
     obtain ⟨m', e, s1, f1⟩ := C01.lincomb1_ok lc h 1 y x m
     exact ⟨m', x, by simp [Op.exec, e], by simp [Op.inPlace], by simpa [Op.spec] using s1, fun b hb _ => f1 b hb⟩
 
+/-- `x / 0` and `x /= 0` with a scalar zero raise (Python's `1.0 / other`). -/
+theorem C01.div_by_zero_scalar_raises (lc : LC K) (x y t : Nat) (m : Mem K) :
+    Op.exec lc .divS x y t 0 m = none ∧ Op.exec lc .idivS x y t 0 m = none := by
+  simp [Op.exec]
+
+/-- The loop `for _ in range(k): tmp *= self` multiplies `tmp` by `self^k` and touches
+nothing else. -/
 theorem C01.mulLoop_ok (x t : Nat) (hx : t ≠ x) (k : Nat) (m : Mem K) :
     (∀ i, mulLoop x t k m t i = m t i * (m x i) ^ k) ∧
     (∀ buf, buf ≠ t → mulLoop x t k m buf = m buf) := by
@@ -218,6 +316,10 @@ theorem C01.mulLoop_ok (x t : Nat) (hx : t ≠ x) (k : Nat) (m : Mem K) :
     · simp only [mulLoop]; rw [h1 i]; simp [multiply, Mem.write, Ne.symm hx]; ring
     · simp only [mulLoop]; rw [h2 b hb]; simp [multiply, Mem.write, hb]
 
+/-- `x **= p` for every natural exponent, following the code's recursion (`p = 0`: assign
+one; `p = 1`: nothing; even: square then recurse on `p // 2`; odd: copy, loop, multiply):
+`x` holds the entry-wise `p`-th power, nothing but `x` and the temporary is modified. By
+strong induction on `p`. -/
 theorem C01.ipow_correct (lc : LC K) (h : LCSpec lc) (x t : Nat) (hx : t ≠ x) (p : Nat) (m : Mem K) :
     ∃ m', ipow lc x t p m = some m' ∧ (∀ i, m' x i = (m x i) ^ p) ∧
       (∀ buf, buf ≠ x → buf ≠ t → m' buf = m buf) := by
@@ -246,6 +348,32 @@ theorem C01.ipow_correct (lc : LC K) (h : LCSpec lc) (x t : Nat) (hx : t ≠ x) 
       · simp only [multiply, Mem.write, hb, if_false]
         rw [l2 b hbt, f1 b hbt]
 
+/-- `x **= p` for every INTEGER exponent: for `p < 0` the code computes `x **= -p` and then
+`divide(one(), x, out=x)`; if no entry of `x` is zero, `x` ends up holding the entry-wise
+`x^p` (integer power in the field). -/
+theorem C01.ipow_int_correct (lc : LC K) (h : LCSpec lc) (x t : Nat) (hx : t ≠ x) (p : Int)
+    (m : Mem K) (hnz : p < 0 → ∀ i, m x i ≠ 0) :
+    ∃ m', ipowInt lc x t p m = some m' ∧ (∀ i, m' x i = (m x i) ^ p) ∧
+      (∀ buf, buf ≠ x → buf ≠ t → m' buf = m buf) := by
+  unfold ipowInt
+  by_cases hp : p < 0
+  · rw [if_pos hp]
+    obtain ⟨m1, e, s1, f1⟩ := C01.ipow_correct lc h x t hx (-p).toNat m
+    refine ⟨_, by rw [e], fun i => ?_, fun b hb hbt => ?_⟩
+    · simp only [divide, one, Mem.write, if_true]
+      rw [if_neg (Ne.symm hx), s1 i]
+      have hpn : p = -((-p).toNat : Int) := by omega
+      conv_rhs => rw [hpn, zpow_neg, zpow_natCast]
+      simp
+    · simp only [divide, one, Mem.write, hb, hbt, if_false]
+      exact f1 b hb hbt
+  · rw [if_neg hp]
+    obtain ⟨m1, e, s1, f1⟩ := C01.ipow_correct lc h x t hx p.toNat m
+    refine ⟨m1, e, fun i => ?_, f1⟩
+    rw [s1 i]
+    have hpn : p = (p.toNat : Int) := by omega
+    conv_rhs => rw [hpn, zpow_natCast]
+
 end
 
 /-! ## Product spaces: `ProductSpace._lincomb` is component-wise -/
@@ -253,12 +381,17 @@ end
 section
 variable {K : Type} [CommRing K]
 
-/-- For product-space elements given by the buffer ids of their leaf parts: if the parts of
-`out` are pairwise distinct objects and part `i` of `out` is not part `j ≠ i` of an operand
-(true for identity aliasing, where aliased elements have equal part lists), then
-`ProductSpace._lincomb` yields `a*x + b*y` on every part and touches nothing else —
-whatever the aliasing between `x`, `y` and `out`. By induction over the component list,
-so for any number of components and any nesting (flattened to leaves). -/
+/-- For product-space elements given by the buffer ids of their leaf parts: if no part
+object occurs twice in `out` and part `i` of `out` is not part `j ≠ i` of an operand
+("no part object occurs twice or crosswise" — this holds when `x`, `y`, `out` are each
+either the same element or elements with disjoint parts; it EXCLUDES elements built from
+shared part objects such as `P.element([a, a])` or `x = P.element([a, b])`,
+`out = P.element([b, a])`, which the public API can construct and for which the
+component-by-component loop does give a different result), then `ProductSpace._lincomb`
+yields `a*x + b*y` on every part and touches nothing else. By induction over the component
+list, so for any number of leaf components (nesting is flattened to leaves by the harness).
+One `lc` is used for all components: it must satisfy the specification at every component
+size (the tensor `_lincomb` does, for every size, by `C01.lincomb_correct`). -/
 theorem C01.plincomb_correct (lc : LC K) (h : LCSpec lc) (a b : K) :
     ∀ (xs ys os : List Nat) (m : Mem K), xs.length = os.length → ys.length = os.length →
       os.Nodup →
@@ -306,23 +439,54 @@ end
 
 /-- Non-vacuity of the element layer: `x **= 5` on a concrete rational buffer, through the
 extracted tensor `_lincomb`. -/
-example : ∃ m', ipow (K := Rat) (fun A a b m => lincombImpl thrSmall thrMedium fbGuard zeroGuard prog 3 false A a b m)
+example : ∃ m', ipow (K := Rat) (fun A a b m => lincombImpl params 3
+      ⟨⟨true, true⟩, ⟨true, true⟩, ⟨true, true⟩, false, false, false⟩ A a b m)
     0 1 5 (fun _ i => (i : Rat) + 2) = some m' ∧ m' 0 1 = 243 := by
-  obtain ⟨m', e, s, _⟩ := C01.ipow_correct (K := Rat) _ (C01.tensor_lincomb_spec 3 false) 0 1 (by decide) 5
+  obtain ⟨m', e, s, _⟩ := C01.ipow_correct (K := Rat) _ (C01.tensor_lincomb_spec 3
+    ⟨⟨true, true⟩, ⟨true, true⟩, ⟨true, true⟩, false, false, false⟩) 0 1 (by decide) 5
     (fun _ i => (i : Rat) + 2)
   exact ⟨m', e, by rw [s]; norm_num⟩
 
 /-! ## Front end of `LinearSpace.lincomb`: malformed calls are rejected before any write -/
 
-/-- `_lincomb` is reached iff every given argument is well-formed: `out` (if given) and `x1`
-in the space, `a` in the field (if the space has one), and either the one-element form with
-no `x2`, or `b` in the field and `x2` in the space. In every other case the outcome is an
-error constructor, i.e. the call returns before `_lincomb` (the only writer) runs. -/
+/-- The body of `LinearSpace.lincomb` as EXTRACTED from `odl/set/space.py` on this run
+decides exactly like the model's `lincombFront`: same first decisive event (which error,
+or which of the two `_lincomb` calls) for every combination of the nine facts the checks
+look at. -/
+theorem C01.extracted_front_is_model (hasField outGiven outIn aIn x1In bGiven x2Given bIn x2In : Bool) :
+    OdlModel.Gen.LincombFront.frontProg.eval
+        ⟨hasField, outGiven, outIn, aIn, x1In, bGiven, x2Given, bIn, x2In⟩ =
+      some (lincombFront hasField outGiven outIn aIn x1In bGiven x2Given bIn x2In) := by
+  cases hasField <;> cases outGiven <;> cases outIn <;> cases aIn <;> cases x1In <;>
+    cases bGiven <;> cases x2Given <;> cases bIn <;> cases x2In <;> rfl
+
+/-- `_lincomb` (the only writer) is reached iff every given argument is well-formed: `out`
+(if given) and `x1` in the space, `a` in the field (if the space has one), and either the
+one-element form with no `x2`, or `b` in the field and `x2` in the space. In every other
+case the first decisive event of the extracted program is a raise, i.e. the call returns
+before anything is written. -/
 theorem C01.lincomb_front_rejects (hasField outGiven outIn aIn x1In bGiven x2Given bIn x2In : Bool) :
-    (lincombFront hasField outGiven outIn aIn x1In bGiven x2Given bIn x2In).isError = false ↔
+    (∃ o, OdlModel.Gen.LincombFront.frontProg.eval
+        ⟨hasField, outGiven, outIn, aIn, x1In, bGiven, x2Given, bIn, x2In⟩ = some o ∧
+        o.isError = false) ↔
       ((outGiven = true → outIn = true) ∧ (hasField = true → aIn = true) ∧ x1In = true ∧
         ((bGiven = false ∧ x2Given = false) ∨
          (bGiven = true ∧ (hasField = true → bIn = true) ∧ x2In = true))) := by
+  rw [C01.extracted_front_is_model]
   cases hasField <;> cases outGiven <;> cases outIn <;> cases aIn <;> cases x1In <;>
     cases bGiven <;> cases x2Given <;> cases bIn <;> cases x2In <;>
     simp [lincombFront, FrontOutcome.isError]
+
+/-! ## The instance the driver executes -/
+
+/-- `C01.lincomb_correct` applied to the Gaussian rationals with exactly the
+`Add`/`Mul`/`OfNat`/`DecidableEq` instances of `Model/CRat.lean` that `Drivers/C01.lean`
+computes with (they form a commutative ring: `Lemmas/CRat.lean`). -/
+theorem C01.lincomb_correct_executed_instance (size : Nat) (d : Desc) (A : Args) (a b : OdlModel.CRat)
+    (m : Mem OdlModel.CRat) :
+    ∃ m', @lincombImpl OdlModel.CRat OdlModel.CRat.instAdd OdlModel.CRat.instMul
+        OdlModel.CRat.instOfNat OdlModel.CRat.instOfNat OdlModel.instDecidableEqCRat
+        params size d A a b m = some m' ∧
+      ∀ i, m' A.out i = a * m A.x1 i + b * m A.x2 i := by
+  obtain ⟨m', e, s, _⟩ := C01.lincomb_correct (K := OdlModel.CRat) size d A a b m
+  exact ⟨m', e, s⟩
